@@ -405,6 +405,7 @@ HandlePUBLISH(a, p) ==
        [] p.qos = 1 -> fx' = <<W(a, k.g, PktAck("PUBACK", p.id))>> \o cb /\ UNCHANGED sess
        [] p.qos = 2 -> /\ fx' = <<W(a, k.g, PktAck("PUBREC", p.id))>>
                        /\ SetSess(a, [sess[a] EXCEPT !.rx = Put(@, [id |-> p.id, msg |-> DeliverArgs(p)])])
+       [] OTHER     -> fx' = <<>> /\ UNCHANGED sess          \* both QoS bits set: dropped without any reaction
   /\ UNCHANGED <<nextId, nd, conn, timers, now>>
 
 HandlePUBREL(a, p) ==
